@@ -376,6 +376,12 @@ func runScript(sc *Script) *Outcome {
 			return nil, fmt.Errorf("no name resolution in the harness")
 		},
 	}
+	switch sc.Cfg.Tunnel {
+	case 1:
+		c.Tunnel = gortsplib.TunnelHTTP
+	case 2:
+		c.Tunnel = gortsplib.TunnelWebSocket
+	}
 	switch sc.Cfg.Proto {
 	case 1:
 		p := gortsplib.ProtocolUDP
@@ -402,6 +408,10 @@ func runScript(sc *Script) *Outcome {
 	for i, call := range sc.Prog {
 		if call.Api == "sleep" {
 			time.Sleep(time.Duration(call.Ms) * time.Millisecond)
+			cr := CallRes{Api: "sleep", Ms: call.Ms, Class: b01(call.Got)}
+			cr.Quiesced = r.quiesce()
+			r.snapshot(&cr)
+			out.Calls = append(out.Calls, cr)
 			continue
 		}
 		closedBefore := r.isClosed()
